@@ -36,6 +36,25 @@ func main() {
 		for _, w := range info.Warnings {
 			fmt.Println("warning:", w)
 		}
+	case "check":
+		if len(os.Args) < 3 {
+			usage()
+		}
+		tier := os.Getenv("VERIF_TIER")
+		for i := 3; i < len(os.Args); i++ {
+			if os.Args[i] == "--tier" && i+1 < len(os.Args) {
+				tier = os.Args[i+1]
+			}
+		}
+		if tier == "" {
+			tier = "quick"
+		}
+		os.Exit(doCheck(os.Args[2], tier))
+	case "replay":
+		if len(os.Args) < 3 {
+			usage()
+		}
+		os.Exit(doReplay(os.Args[2]))
 	default:
 		usage()
 	}
